@@ -3,3 +3,31 @@ import z3
 from values import *  # noqa
 from core import INTRINSICS, intrinsic, prefix_intrinsic, Exec, SymIdx
 from intrinsics import harness, HARNESS, uf_hash, opaque_err, bytes_to_bv
+
+
+# ------------------------------------------------------------------ secp256k1 (curve arithmetic is outside the encoder)
+@intrinsic('github.com/decred/dcrd/dcrec/secp256k1/v4.ParsePubKey')
+def _parse_pubkey(ex, args, ins, where):
+    """validity of a serialized public key is a nondeterministic bit (curve membership needs field arithmetic)"""
+    ok = ex.fresh('secp.ParsePubKey.ok', 1, boolean=True)
+    ex.cut_notes.add('stub: secp256k1.ParsePubKey returns a nondeterministic verdict')
+    if ex.branch(ok, 'ParsePubKey verdict'):
+        return [Ptr(ex.new_obj(Opaque('secp256k1.PublicKey')), ()), NIL]
+    return [NIL, opaque_err('secp256k1 parse error')]
+
+
+@intrinsic('(*github.com/decred/dcrd/dcrec/secp256k1/v4.PublicKey).SerializeUncompressed',
+           '(github.com/decred/dcrd/dcrec/secp256k1/v4.PublicKey).SerializeUncompressed')
+def _ser_uncompressed(ex, args, ins, where):
+    vs = [4] + [ex.fresh('secp.SerializeUncompressed', 8) for _ in range(64)]
+    return ex.mkslice(vs)
+
+
+@intrinsic('(*github.com/decred/dcrd/dcrec/secp256k1/v4.PublicKey).SerializeCompressed',
+           '(github.com/decred/dcrd/dcrec/secp256k1/v4.PublicKey).SerializeCompressed')
+def _ser_compressed(ex, args, ins, where):
+    b0 = ex.fresh('secp.SerializeCompressed', 8)
+    if is_sym(b0):
+        ex.add(z3.Or(b0 == 2, b0 == 3))
+    vs = [b0] + [ex.fresh('secp.SerializeCompressed', 8) for _ in range(32)]
+    return ex.mkslice(vs)
